@@ -28,8 +28,15 @@ Streams: corpus | valid (inside the hygiene hypothesis; the monitor must hold)
 | exotic (values containing token text, junctions, adjacent workspace tokens,
 label chains, references to unknown steps ...: model and implementation must
 still agree; a failing monitor is reported as KNOWN-FINDING K4a / K4b by
-signature, never as VIOLATION) | tiny (exhaustive small scope of the core law:
-Python's own str.replace in every order against `sim`).
+signature -- only when that signature is listed in KNOWN_FINDINGS.txt -- never
+as VIOLATION; a model/implementation disagreement on an input OUTSIDE the
+hygiene hypothesis is recorded in the evidence, it is not an alarm) | core
+(small scope of the core law: Python's own str.replace in several orders against
+`seq` and `sim`) | scan (re.findall(WSREGEX, .) of the real module against
+`ws_findall`, exhaustive over short fragment sequences plus random ones) | nested
+(utils.apply_function with a real Combination.apply on nested lists / dicts
+against `apply_function`; its monitor is the statement of C09_recursion, a
+failure of it on the implementation's result is a VIOLATION).
 """
 import glob
 import io
@@ -94,11 +101,14 @@ Import ListNotations.
 Definition A_ := @app N.
 Definition P_ := Build_param.
 (* (one-row parameter table, value, utils.apply_function(value, Combination.apply)) *)
-Definition nested_chk (p : list param * pyval * pyval) : bool :=
+(* the monitor: the statement of C09_recursion on the IMPLEMENTATION's result *)
+Definition nested_mon (p : list param * pyval * pyval) : bool :=
   let '(ps, v, out) := p in
-  pyval_eqb (apply_function (param_pass Model ps 0) v) out &&
   pyval_eqb (skeleton out) (skeleton v) &&
   list_str_eqb (strings_of out) (map (apply_str (param_pass Model ps 0)) (strings_of v)).
+Definition nested_chk (p : list param * pyval * pyval) : bool :=
+  let '(ps, v, out) := p in
+  pyval_eqb (apply_function (param_pass Model ps 0) v) out && nested_mon p.
 """
 
 
@@ -682,6 +692,11 @@ def scan_run(ck, rng, n, dist):
     try:
         from maestrowf.datastructures.core.study import WSREGEX
         found = [[m if isinstance(m, str) else "TUPLE:" + "|".join(m) for m in re.findall(WSREGEX, x)] for x in texts]
+        # evidence only: the scanner ws_findall was written against this text; a
+        # different but equivalent regex is judged by the comparison below
+        ck.notes["wsregex_text_unchanged"] = (
+            getattr(WSREGEX, "pattern", None) ==
+            r"\$\(([-!\$%\^&\*\(\)_\+\|~=`{}\[\]:;<>\?,\.\/\w]+)\.workspace\)")
     except Exception as e:
         ck.mismatch("WSREGEX could not be evaluated: %s: %s" % (type(e).__name__, e), None)
         return
@@ -706,8 +721,25 @@ def _nested_value(rng, toks, depth):
         return rng.choice(["", 0, 1, 7, 2.5, 0.0, True, False, None, (1, "$(P)"), "x"])
     if c < 0.7:
         return [_nested_value(rng, toks, depth - 1) for _ in range(rng.choice([0, 1, 2, 3]))]
-    return OrderedDict((rng.choice(["k", "cmd", "$(P)", "n"]) + str(i), _nested_value(rng, toks, depth - 1))
-                       for i in range(rng.choice([0, 1, 2, 3])))
+    return dict((rng.choice(["k", "cmd", "$(P)", "n"]) + str(i), _nested_value(rng, toks, depth - 1))
+                for i in range(rng.choice([0, 1, 2, 3])))
+
+
+def nested_one(rows, v):
+    """(literal, v, out, rows) or an error text."""
+    import copy
+    try:
+        from maestrowf.utils import apply_function
+        from maestrowf.datastructures.core.parameters import Combination
+        combo = Combination()
+        for k, nm, val, lab in rows:
+            combo.add(k, nm or k, val, lab)
+        out = apply_function(copy.deepcopy(v), combo.apply)
+    except Exception as e:
+        return "%s: %s" % (type(e).__name__, str(e)[:200])
+    ps = g_list(["P_ %s %s %s (LList [%s])" % (g_str(k), g_str(nm), g_list([g_str(str(val))]), g_str(lab))
+                 for k, nm, val, lab in rows])
+    return ("(%s, %s, %s)" % (ps, g_pyval(v), g_pyval(out)), v, out, [list(r) for r in rows])
 
 
 def nested_run(ck, rng, n, dist):
@@ -726,24 +758,28 @@ def nested_run(ck, rng, n, dist):
         rows = [(k, rng.choice(["", "nm " + k]), rng.choice([1, 2.5, "v w", "é", True]), rng.choice(["%s.1" % k, "L"])) for k in keys]
         toks = [f % k for k in keys for f in ("$(%s)", "$(%s.label)", "$(%s.name)")] + ["$(U)", "$(date)", "$"]
         v = _nested_value(rng, toks, rng.choice([1, 2, 3, 4]))
-        try:
-            combo = Combination()
-            for k, nm, val, lab in rows:
-                combo.add(k, nm or k, val, lab)
-            out = apply_function(copy.deepcopy(v), combo.apply)
-        except Exception as e:
-            ck.mismatch("apply_function raised %s: %s" % (type(e).__name__, str(e)[:200]), {"value": repr(v)})
+        one = nested_one(rows, v)
+        if isinstance(one, str):
+            ck.mismatch("apply_function raised " + one, {"stream": "nested", "apply_function_input": repr(v)})
             continue
-        ps = g_list(["P_ %s %s %s (LList [%s])" % (g_str(k), g_str(nm), g_list([g_str(str(val))]), g_str(lab))
-                     for k, nm, val, lab in rows])
-        cases.append(("(%s, %s, %s)" % (ps, g_pyval(v), g_pyval(out)), v, out))
+        cases.append(one)
         dist["nested_depth:%d" % _depth(v)] += 1
     bad, errs = common.coq_failing("C09nest", NESTED_HEADER, "list param * pyval * pyval", "nested_chk",
                                    [c[0] for c in cases], shard=400, timeout=900)
     ck.count("nested", nontrivial=False, n=len(cases))
-    for i in bad[:5]:
-        ck.mismatch("apply_function (model) disagrees with utils.apply_function",
-                    {"value": repr(cases[i][1]), "python": repr(cases[i][2])})
+    if bad:
+        bad2, e2 = common.coq_failing("C09nestm", NESTED_HEADER, "list param * pyval * pyval", "nested_mon",
+                                      [cases[i][0] for i in bad], shard=400, timeout=900)
+        errs = errs + e2
+        monbad = {bad[j] for j in bad2}
+        for i in bad[:8]:
+            cj = {"stream": "nested", "apply_function_input": repr(cases[i][1]), "table": repr(cases[i][3]),
+                  "apply_function_output": repr(cases[i][2])}
+            if i in monbad:
+                ck.violation("utils.apply_function does not map exactly the strings of a nested value "
+                             "(C09_recursion is false on the implementation's result)", cj)
+            else:
+                ck.mismatch("apply_function (model) disagrees with utils.apply_function", cj)
     for e in errs:
         ck.mismatch("coqc failed on nested cases file", None, e[1])
 
@@ -969,7 +1005,26 @@ def run(ck):
 def replay(ck, path):
     d = json.load(open(path))
     c = d.get("case", d)
-    if "steps" not in c:
+    if isinstance(c, dict) and c.get("stream") == "nested":
+        import ast
+        one = nested_one([tuple(r) for r in ast.literal_eval(c["table"])], ast.literal_eval(c["apply_function_input"]))
+        print("case:", json.dumps(c, default=str, ensure_ascii=False))
+        if isinstance(one, str):
+            print("implementation raised:", one)
+            print("VIOLATION property=C09 replay=%s" % path)
+            return 1
+        print("implementation:", repr(one[2]))
+        res = {}
+        for key in ("nested_chk", "nested_mon"):
+            f, e = common.coq_failing("C09replay", NESTED_HEADER, "list param * pyval * pyval", key, [one[0]])
+            res[key] = (not f) and not e
+        print("verdict:", res)
+        if res["nested_chk"]:
+            print("OK")
+            return 0
+        print("VIOLATION property=C09 replay=%s" % path)
+        return 1
+    if not isinstance(c, dict) or "steps" not in c:
         print("replay file holds no specification case:", json.dumps(d, default=str)[:2000])
         return 1
     model, obs = observe(c, "replay")
